@@ -46,6 +46,7 @@ type c17SemStep struct {
 	Done   int64   `json:"done"`   // closed done channels
 	Panics int64   `json:"panics"` // panics seen by the caller of Release
 	Wq     []int64 `json:"wq"`
+	Skip   bool    `json:"skip"` // the operation was not issued (see c17SemExec)
 }
 
 type c17SemObs struct {
@@ -100,7 +101,7 @@ func c17SemExec(in c17SemIn, emit func(c17SemStep)) (desync bool) {
 	snap := s.VfC17Snapshot()
 	T := snap.T()
 	var shadow []byte // 'A' acquirer, 'S' shrink goroutine, FIFO
-	var started, released, issued, doomed, panics int64
+	var started, released, issued, panics int64
 	var got int64
 	var dones []chan struct{}
 	for _, op := range in.Ops {
@@ -108,6 +109,7 @@ func c17SemExec(in c17SemIn, emit func(c17SemStep)) (desync bool) {
 			continue
 		}
 		push := byte(0)
+		skipped := false
 		switch op[0] {
 		case 0:
 			started++
@@ -133,23 +135,20 @@ func c17SemExec(in c17SemIn, emit func(c17SemStep)) (desync bool) {
 				n = snap.Size
 			}
 			d := n - s.VfC17Snapshot().Real
+			if -d > snap.Size {
+				// A shrink by more than the semaphore's size (only possible after an unclamped
+				// NewSem) leaves no trace when its goroutine reaches the semaphore (x/sync parks
+				// such a request outside the queue), so it cannot be synchronised with: not issued.
+				skipped = true
+				break
+			}
 			issued++
 			dones = append(dones, s.SetMaxCount(op[1]))
 			if d > 0 {
 				T -= d
 			} else if d < 0 {
-				if -d > snap.Size {
-					// x/sync: a request above size is granted if it fits right now (only possible
-					// when cur is negative), otherwise it never enters the queue and blocks for ever
-					if snap.Size-snap.Cur >= -d && len(snap.Waiters) == 0 {
-						T += -d
-					} else {
-						doomed++
-					}
-				} else {
-					T += -d
-					push = 'S'
-				}
+				T += -d
+				push = 'S'
 			}
 		}
 		prevLen := len(snap.Waiters)
@@ -198,11 +197,11 @@ func c17SemExec(in c17SemIn, emit func(c17SemStep)) (desync bool) {
 			}
 			return
 		}
-		if !c17SemPoll(func() bool { return closed() == issued-qs-doomed }) {
+		if !c17SemPoll(func() bool { return closed() == issued-qs }) {
 			desync = true
 		}
 		emit(c17SemStep{Cur: snap.Cur, Real: snap.Real, Held: atomic.LoadInt64(&got) - released,
-			Done: closed(), Panics: panics, Wq: snap.Waiters})
+			Done: closed(), Panics: panics, Wq: snap.Waiters, Skip: skipped})
 	}
 	return
 }
